@@ -297,6 +297,10 @@ impl Split {
       }
     }
 
+    // enciphering sorts edicts by rune ID, sort them here so that the
+    // deciphered runestone compares equal below
+    edicts.sort_by_key(|edict| edict.id);
+
     let runestone = Runestone {
       edicts,
       ..default()
